@@ -85,7 +85,10 @@ void h_g_acquire(void) {
     if (g0) { XV_OBL("ebr.acquire.enter_before_load", gs_enter == 0 && gs_leave == 0); XV_CANARY("g_acquire.stays_in_region"); }
     else { XV_OBL("ebr.acquire.enter_before_load", gs_enter == 1 && gs_leave == 0 && gs_enter_clk < mon_src_last_clk); XV_CANARY("g_acquire.entered"); }
   } else {
-    if (mon_src_loads == 1) XV_CANARY("g_acquire.null_first"); else XV_CANARY("g_acquire.null_second");
+    if (mon_src_loads == 1) XV_CANARY("g_acquire.null_first");
+#ifdef XV_INT
+    else XV_CANARY("g_acquire.null_second");
+#endif
   }
 #ifndef XV_INT
   XV_OBL("ebr.acquire.snapshot", g.ptr == src0);
@@ -105,7 +108,10 @@ void h_g_acquire_if_equal(void) {
     if (g0) { XV_OBL("ebr.acquire.enter_before_load", gs_enter == 0 && gs_leave == 0); XV_CANARY("g_aie.stays_in_region"); }
     else { XV_OBL("ebr.acquire.enter_before_load", gs_enter == 1 && gs_leave == 0 && gs_enter_clk < mon_src_last_clk); XV_CANARY("g_aie.entered"); }
   } else if (r) XV_CANARY("g_aie.true_null");
-  else if (mon_src_loads == 1) XV_CANARY("g_aie.false_first"); else XV_CANARY("g_aie.false_second");
+  else if (mon_src_loads == 1) XV_CANARY("g_aie.false_first");
+#ifdef XV_INT
+  else XV_CANARY("g_aie.false_second");
+#endif
 #ifndef XV_INT
   XV_OBL("ebr.acquire.snapshot", r == (src0 == expected) && g.ptr == (r ? src0 : 0));
 #endif
